@@ -24,6 +24,7 @@ for m in "${muts[@]}"; do
     fi
   fi
   out=$(VERIF_MUTANT=$m ./run $id quick 2>&1); code=$?
+  rm -rf "$ROOT/.build/"*".mut.$name" "$ROOT/.build/selftest.$name/overlay.json" 2>/dev/null
   if [ $code -eq 1 ] && echo "$out" | grep -q "^VIOLATION property=$id "; then
     echo "$name DETECTED: $(echo "$out" | grep -m1 '^  detail:' )"
   elif [ $code -eq 0 ]; then echo "$name MISSED"; rc=1
